@@ -23,7 +23,7 @@
      Abandon i  : i < nw s /\ ws s i <> WPending                (a future is dropped only once it has completed)
    all_ok es s : every event of es satisfies its guard in the state reached before it.
    all_ok_wf   : the same without the guard on WireOut (write may precede register). *)
-Require Import DV.Base.Bytes DV.Model.Client DV.Proofs.ClientFacts.
+Require Import DV.Base.Bytes DV.Model.Client DV.Model.ClientMulti DV.Proofs.ClientFacts DV.Proofs.ClientMultiFacts.
 
 (* For EVERY event list (any interleaving, adversarial peer, ids not assumed distinct): a future that
    completed with an answer got a frame with its own hop-by-hop id, that the peer really emitted,
@@ -108,3 +108,41 @@ Theorem C11_matching_example :
     [WGot {| hop := 1%N; fid := 0 |}; WGot {| hop := 2%N; fid := 2 |}; WGot {| hop := 3%N; fid := 1 |}].
 Proof. exact C11_matching_nonvacuous. Qed.
 Print Assumptions C11_matching_example.
+
+(* One client object, several connections over its life (connect() called again; Model/ClientMulti.v): every
+   connection has its own waiter table and its own closed flag (repair D12), so connection c ends exactly where
+   its own events alone take a single-connection client - whatever the other connections do ... *)
+Theorem C11_connections_are_independent : forall es c, conn (mrun es) c = run (cproj 0 c es).
+Proof. exact multi_projection. Qed.
+Print Assumptions C11_connections_are_independent.
+
+(* ... hence safety and matching hold per connection *)
+Theorem C11_safety_per_connection : forall es c i f, i < nw (conn (mrun es) c) -> ws (conn (mrun es) c) i = WGot f ->
+  hop f = whop (conn (mrun es) c) i /\ fid f < nsent (conn (mrun es) c) /\ senth (conn (mrun es) c) (fid f) = hop f /\
+  (forall j g, j < nw (conn (mrun es) c) -> ws (conn (mrun es) c) j = WGot g -> fid g = fid f -> j = i).
+Proof. exact multi_safety. Qed.
+Print Assumptions C11_safety_per_connection.
+
+Theorem C11_matching_per_connection : forall es c, all_ok (cproj 0 c es) init ->
+  (forall f, ~ In (IFrame f) (inq (conn (mrun es) c))) ->
+  (forall i, i < nw (conn (mrun es) c) -> exists a, a < nsent (conn (mrun es) c) /\ senth (conn (mrun es) c) a = whop (conn (mrun es) c) i) ->
+  forall i, i < nw (conn (mrun es) c) ->
+    exists f, ws (conn (mrun es) c) i = WGot f /\ hop f = whop (conn (mrun es) c) i /\ closed (conn (mrun es) c) = false.
+Proof. exact multi_matching. Qed.
+Print Assumptions C11_matching_per_connection.
+
+(* before repair D12 (one table shared by all connections of the object): request 2 is outstanding on the second,
+   healthy connection, the FIRST connection's peer closes; its reader clears the shared table, the future of request 2
+   fails although its answer is sent, and that answer then stops the second reader too *)
+Theorem C11_shared_table_legacy_refuted :
+  outcomes (sh_shared (shrun sched_shared)) = [WDropped; WDropped] /\
+  sh_closed (shrun sched_shared) 1 = true /\ sh_closed (shrun sched_shared) 2 = true.
+Proof. exact legacy_shared_table_refuted. Qed.
+Print Assumptions C11_shared_table_legacy_refuted.
+
+Theorem C11_shared_table_repaired_example :
+  outcomes (conn (mrun sched_shared) 1) = [WDropped] /\
+  outcomes (conn (mrun sched_shared) 2) = [WGot {| hop := 2%N; fid := 0 |}] /\
+  closed (conn (mrun sched_shared) 1) = true /\ closed (conn (mrun sched_shared) 2) = false.
+Proof. exact shared_table_repaired. Qed.
+Print Assumptions C11_shared_table_repaired_example.
